@@ -181,7 +181,7 @@ def systematic(rng, tier):
 					if tier != 'thorough' and rng.random() < .5 and k_ not in (34, 40):
 						continue
 					out.append({'k': 'hostile', 'kind': 'server', 's': st.hex(), 'cuts': [[]]})
-	big = [b'7000000000', b'99999999999999999999', b'18446744073709551616', b'1' + b'0' * 400, b'0x7fffffffffffffff', b'1e9', b'4294967296', b'-7000000000']
+	big = [b'7000000000', b'99999999999999999999', b'18446744073709551616', b'1' + b'0' * 400, b'1' * 4301, b'9' * 5000, b'0x7fffffffffffffff', b'1e9', b'4294967296', b'-7000000000']
 	for n_ in big:
 		for st in (b'POST / HTTP/1.1\r\nHost: h\r\nContent-Type: a/b; title*' + n_ + b'=x\r\nContent-Length: 0\r\n\r\n',
 				b'POST / HTTP/1.1\r\nHost: h\r\nContent-Type: a/b; title*0=x; title*' + n_ + b'=y\r\nContent-Length: 0\r\n\r\n',
@@ -191,6 +191,10 @@ def systematic(rng, tier):
 				b'GET / HTTP/' + n_ + b'.' + n_ + b'\r\nHost: h\r\n\r\n',
 				b'GET / HTTP/1.1\r\nHost: h:' + n_ + b'\r\n\r\n',
 				b'GET http://h:' + n_ + b'/ HTTP/1.1\r\nHost: h\r\n\r\n',
+				b'GET http://' + n_ + b'/ HTTP/1.1\r\nHost: h\r\n\r\n',
+				b'GET http://1.2.3.' + n_ + b'/ HTTP/1.1\r\nHost: h\r\n\r\n',
+				b'CONNECT ' + n_ + b':80 HTTP/1.1\r\nHost: ' + n_ + b':80\r\n\r\n',
+				b'GET / HTTP/1.1\r\nHost: ' + n_ + b'\r\n\r\n',
 				b'GET / HTTP/1.1\r\nHost: h\r\nAccept: a/b;q=' + n_ + b'\r\nRange: bytes=0-' + n_ + b'\r\n\r\n'):
 			out.append({'k': 'hostile', 'kind': 'server', 's': st.hex(), 'cuts': [[]]})
 		out.append({'k': 'hostile', 'kind': 'client', 's': (b'HTTP/1.1 ' + n_ + b' OK\r\nContent-Length: ' + n_ + b'\r\n\r\n').hex(), 'cuts': [[]]})
@@ -199,9 +203,10 @@ def systematic(rng, tier):
 	# of an encoded word in a field the parser reads and of an RFC 5987 extended parameter
 	import encodings.aliases
 	from httoop import util as _util
-	names = sorted(set(getattr(_util, 'KNOWN_ENCODINGS', ())) | set(encodings.aliases.aliases.values()) | {'utf-8-sig', 'idna', 'punycode', 'unicode_escape', 'raw_unicode_escape', 'undefined', 'mbcs', 'oem', 'x', ''})
+	names = sorted(set(getattr(_util, 'KNOWN_ENCODINGS', ())) | set(encodings.aliases.aliases.values()) | {'utf-8-sig', 'idna', 'punycode', 'unicode_escape', 'raw_unicode_escape', 'undefined', 'mbcs', 'oem', 'x', '',
+		'a\x00b', '\x00', 'utf-8\x00', 'utf\x008', 'x' * 300, '\xfc', ' utf-8', 'utf-8 ', 'utf 8', 'utf-8\t', '\x7f', 'u\x1ft', '%', '*', "'", '"', '=', '?', '??', 'utf-8?', '/', '\\', '.', '..', '-', '_'})
 	for name in names:
-		nm = name.encode('ascii')
+		nm = name.encode('latin-1')
 		for c, payload in ((b'q', b'abc=FF=00'), (b'b', b'YWJj/w==')):
 			word = b'=?' + nm + b'?' + c + b'?' + payload + b'?='
 			out.append({'k': 'hostile', 'kind': 'server', 's': (b'POST / HTTP/1.1\r\nHost: h\r\nTransfer-Encoding: ' + word + b'\r\n\r\n').hex(), 'cuts': [[]]})
